@@ -283,7 +283,7 @@ def gen_cfgparser():
     if len(tl) != 1:
         raise Untranslatable("directive tuple not found")
     out += "/-- directive names accepted by `handle_directive` -/\n"
-    out += "def directives : List Str := %s\n\n" % lstrlist(tl[0])
+    out += "def directives : List Str := %s\n\n" % lstrlist(sorted(tl[0]))
     out += "end ZCV.Gen\n"
     return out
 
@@ -309,8 +309,8 @@ def gen_datatypes():
     tl = tuple_literals_in(d.asBoolean)
     if len(tl) != 2:
         raise Untranslatable("boolean word tuples not found")
-    out += "def boolTrue : List Str := %s\n" % lstrlist(tl[0])
-    out += "def boolFalse : List Str := %s\n\n" % lstrlist(tl[1])
+    out += "def boolTrue : List Str := %s\n" % lstrlist(sorted(tl[0]))
+    out += "def boolFalse : List Str := %s\n\n" % lstrlist(sorted(tl[1]))
     pn = d.port_number.__self__
     if pn._conversion is not d.integer:
         raise Untranslatable("port_number conversion changed")
@@ -318,7 +318,7 @@ def gen_datatypes():
     out += "def portMax : Option Int := %s\n\n" % ("none" if pn._max is None else "some %d" % pn._max)
     for lean, key in (("byteSize", "byte-size"), ("timeInterval", "time-interval")):
         sm = st[key]
-        items = list(sm._d.items())
+        items = sorted(sm._d.items())      # (first match by equal-length suffix: order is irrelevant)
         if not all(isinstance(k, str) and isinstance(v, int) for k, v in items):
             raise Untranslatable("suffix table types")
         out += "def %sTbl : List (Str × Int) := [%s]\n" % (
@@ -361,9 +361,9 @@ def gen_logger():
     if lo is None or hi is None:
         raise Untranslatable("logging_level bounds not found")
     out = header("src/ZConfig/components/logger/datatypes.py, handlers.py")
-    out += "def loggingLevels : List (Str × Int) := [%s]\n" % ", ".join("(%s, %d)" % (lstr(k), v) for k, v in tbl.items())
+    out += "def loggingLevels : List (Str × Int) := [%s]\n" % ", ".join("(%s, %d)" % (lstr(k), v) for k, v in sorted(tbl.items()))
     out += "def levelLo : Int := %d\ndef levelHi : Int := %d\n\n" % (lo, hi)
-    out += "def syslogFacilities : List Str := %s\n\n" % lstrlist(list(lh._syslog_facilities.keys()))
+    out += "def syslogFacilities : List Str := %s\n\n" % lstrlist(sorted(lh._syslog_facilities.keys()))
     out += "end ZCV.Gen\n"
     return out
 
@@ -381,7 +381,7 @@ def gen_schema():
     out = header("src/ZConfig/schema.py")
     out += "/-- `BaseParser._allowed_parents` -/\n"
     out += "def allowedParents : List (Str × List Str) := [%s]\n\n" % ", ".join(
-        "(%s, %s)" % (lstr(k), lstrlist(list(v))) for k, v in ap.items())
+        "(%s, %s)" % (lstr(k), lstrlist(sorted(v))) for k, v in sorted(ap.items()))
     out += "def cdataTags : List Str := %s\n" % lstrlist(list(bp._cdata_tags))
     out += "def handledTags : List Str := %s\n" % lstrlist(list(bp._handled_tags))
     out += "def schemaHandledTags : List Str := %s\n" % lstrlist(list(sc.SchemaParser._handled_tags))
